@@ -695,6 +695,89 @@ theorem ppf_within_fitted_range (p lo hi : ℚ) (pts : List (ℚ × ℚ)) (hne :
     · simp only [hx, if_false]
       exact interpAux_mem p hi lo hi _ h ⟨hlh, le_rfl⟩
 
+theorem interpAux_ge_head (x right x0 f0 : ℚ) (rest : List (ℚ × ℚ))
+    (hs : ((x0, f0) :: rest).Pairwise (fun p q => p.1 < q.1 ∧ p.2 ≤ q.2)) (hr : ∀ p ∈ (x0, f0) :: rest, p.2 ≤ right) :
+    f0 ≤ interpAux x right ((x0, f0) :: rest) := by
+  have h : ∀ p ∈ (x0, f0) :: rest, f0 ≤ p.2 ∧ p.2 ≤ right := by
+    intro p hp
+    refine ⟨?_, hr p hp⟩
+    rcases List.mem_cons.mp hp with rfl | hp'
+    · exact le_rfl
+    · exact ((List.pairwise_cons.mp hs).1 p hp').2
+  exact (interpAux_mem x right f0 right _ h ⟨hr (x0, f0) (by simp), le_rfl⟩).1
+
+theorem interpAux_mono (right : ℚ) (pts : List (ℚ × ℚ)) (hs : pts.Pairwise (fun p q => p.1 < q.1 ∧ p.2 ≤ q.2))
+    (hr : ∀ p ∈ pts, p.2 ≤ right) (x y : ℚ) (hxy : x ≤ y) : interpAux x right pts ≤ interpAux y right pts := by
+  induction pts with
+  | nil => simp [interpAux]
+  | cons p rest ih =>
+    obtain ⟨x0, f0⟩ := p
+    have hrest := (List.pairwise_cons.mp hs).2
+    have hrr : ∀ p ∈ rest, p.2 ≤ right := fun p hp => hr p (by simp [hp])
+    by_cases hx : x ≤ x0
+    · have hA := interpAux_ge_head y right x0 f0 rest hs hr
+      have : interpAux x right ((x0, f0) :: rest) = f0 := by unfold interpAux; simp [hx]
+      rw [this]; exact hA
+    · have hy : ¬ y ≤ x0 := by intro h; exact hx (le_trans hxy h)
+      cases rest with
+      | nil => unfold interpAux; simp [hx, hy]
+      | cons q t =>
+        obtain ⟨x1, f1⟩ := q
+        have h01 := (List.pairwise_cons.mp hs).1 (x1, f1) (by simp)
+        have hx0 : x0 < x := not_le.mp hx
+        have hd : 0 < x1 - x0 := by linarith [h01.1]
+        by_cases hx1 : x < x1
+        · have hL : interpAux x right ((x0, f0) :: (x1, f1) :: t) = f0 + (f1 - f0) * (x - x0) / (x1 - x0) := by
+            unfold interpAux; simp [hx, hx1]
+          rw [hL]
+          by_cases hy1 : y < x1
+          · have hR : interpAux y right ((x0, f0) :: (x1, f1) :: t) = f0 + (f1 - f0) * (y - x0) / (x1 - x0) := by
+              unfold interpAux; simp [hy, hy1]
+            rw [hR]
+            have : (f1 - f0) * (x - x0) / (x1 - x0) ≤ (f1 - f0) * (y - x0) / (x1 - x0) := by
+              apply div_le_div_of_nonneg_right _ hd.le
+              exact mul_le_mul_of_nonneg_left (by linarith) (by linarith [h01.2])
+            linarith
+          · have hR : interpAux y right ((x0, f0) :: (x1, f1) :: t) = interpAux y right ((x1, f1) :: t) := by
+              conv_lhs => unfold interpAux
+              simp [hy, hy1]
+            rw [hR]
+            have hA := interpAux_ge_head y right x1 f1 t hrest hrr
+            have hle : f0 + (f1 - f0) * (x - x0) / (x1 - x0) ≤ f1 := by
+              have ht1 : (x - x0) / (x1 - x0) ≤ 1 := by rw [div_le_one hd]; linarith
+              have e : f0 + (f1 - f0) * (x - x0) / (x1 - x0) = f0 + (f1 - f0) * ((x - x0) / (x1 - x0)) := by ring
+              rw [e]
+              nlinarith [mul_nonneg (sub_nonneg.mpr h01.2) (sub_nonneg.mpr ht1)]
+            linarith
+        · have hy1 : ¬ y < x1 := by intro h; exact hx1 (lt_of_le_of_lt hxy h)
+          have hL : interpAux x right ((x0, f0) :: (x1, f1) :: t) = interpAux x right ((x1, f1) :: t) := by
+            conv_lhs => unfold interpAux
+            simp [hx, hx1]
+          have hR : interpAux y right ((x0, f0) :: (x1, f1) :: t) = interpAux y right ((x1, f1) :: t) := by
+            conv_lhs => unfold interpAux
+            simp [hy, hy1]
+          rw [hL, hR]
+          exact ih hrest hrr
+
+/-- **if the fitted quantiles of a stratum do not cross, its ppf is monotone**: a larger uniform draw never gives a smaller unit-level error
+    (knots strictly increasing, values non-decreasing, `lo` / `hi` below / above all of them) -/
+theorem ppf_monotone (lo hi : ℚ) (pts : List (ℚ × ℚ)) (hne : pts ≠ [])
+    (hs : pts.Pairwise (fun p q => p.1 < q.1 ∧ p.2 ≤ q.2)) (h : ∀ q ∈ pts, lo ≤ q.2 ∧ q.2 ≤ hi) (x y : ℚ) (hxy : x ≤ y) :
+    interp x lo hi pts ≤ interp y lo hi pts := by
+  cases pts with
+  | nil => exact absurd rfl hne
+  | cons q t =>
+    obtain ⟨x0, f0⟩ := q
+    by_cases hx : x < x0
+    · have hL : interp x lo hi ((x0, f0) :: t) = lo := by simp [interp, hx]
+      rw [hL]
+      exact (ppf_within_fitted_range y lo hi _ (by simp) h).1
+    · have hy : ¬ y < x0 := by intro hh; exact hx (lt_of_le_of_lt hxy hh)
+      have hL : interp x lo hi ((x0, f0) :: t) = interpAux x hi ((x0, f0) :: t) := by simp [interp, hx]
+      have hR : interp y lo hi ((x0, f0) :: t) = interpAux y hi ((x0, f0) :: t) := by simp [interp, hy]
+      rw [hL, hR]
+      exact interpAux_mono hi _ hs (fun p hp => (h p hp).2) x y hxy
+
 /-- at a knot the interpolation returns the knot's value (strictly increasing knots) -/
 theorem interp_first_knot (left right x0 f0 : ℚ) (t : List (ℚ × ℚ)) : interp x0 left right ((x0, f0) :: t) = f0 := by
   simp [interp, interpAux]
